@@ -90,7 +90,7 @@ func runC02(c *Ctx) error {
 	nsingle := len(cases)
 	// (2) three messages in flight concurrently on one handler, one of them parked at a hook point
 	gates := []string{"", "router.handle.start", "router.handle.before_publish", "router.handle.before_settle"}
-	ntriples := c.Pick(120, 2500)
+	ntriples := c.Pick(120, 20000)
 	for i := 0; i < ntriples; i++ {
 		hp := c.Rng.Intn(4) != 0
 		all := c02AllBehs(hp)
